@@ -610,7 +610,9 @@ def ksa(ctx, rep):
             if len(fin) == 1:
                 st = {k: v for k, v in fin[0].items() if k[0] == "deref"}
                 for root, v in st.items():
-                    if strip(root) == ("field", ("param", 2), 1) and v == ("cast", "IntToInt", ("field", ("param", 2), 0), "u8"):
+                    # `n as u8`, or `u8::try_from(n).expect(..)`: the same byte wherever the latter
+                    # returns (that it always does is rule C14|unwrap, re-filed under C06|totality)
+                    if strip(root) == ("field", ("param", 2), 1) and util.numnorm(v) == ("cast", "IntToInt", ("field", ("param", 2), 0), "u8"):
                         init_ok = len(st) == 1
         how = "first pass: S[n] = n over iter_mut().enumerate()"
         # the identity pass must come first
@@ -802,7 +804,7 @@ def _closure_identity_init(ctx, se, call, table_loc):
         return False
     st = {k: v for k, v in fin[0].items() if k[0] == "deref"}
     for root, v in st.items():
-        if strip(root) == ("field", ("param", 2), 1) and v == ("cast", "IntToInt", ("field", ("param", 2), 0), "u8"):
+        if strip(root) == ("field", ("param", 2), 1) and util.numnorm(v) == ("cast", "IntToInt", ("field", ("param", 2), 0), "u8"):
             return len(st) == 1
     return False
 
